@@ -480,7 +480,11 @@ class WorldC08(World):
                                 'documented keyword routing = %r' % (r, m['cls'], q, st, got, cond, want))
         ini, fin = ('products', 'reactants') if rev else ('reactants', 'products')
         scale = val[ini][1] + val[fin][1]
-        want = val[fin][0] / val[ini][0] if q == 'q' else val[fin][0] - val[ini][0]
+        if q == 'q':
+            # (a product that underflowed to zero is outside floating-point range: nothing can be demanded, see _close)
+            want = val[fin][0] / val[ini][0] if val[ini][0] != 0 else float('inf')
+        else:
+            want = val[fin][0] - val[ini][0]
         got = call(getattr(rxn, 'get_delta_' + q), 'get_delta_%s(rev=%s)' % (q, rev), rev=F(rev))
         if not self._close(got, want, scale, q):
             raise Violation('hess', 'reaction %d (%s): get_delta_%s(rev=%s) = %r under %r; final - initial = %r' % (
@@ -498,7 +502,7 @@ class WorldC08(World):
             acts = {}
             for rv in (False, True):
                 i0 = 'products' if rv else 'reactants'
-                w = ts / val[i0][0] if q == 'q' else ts - val[i0][0]
+                w = (ts / val[i0][0] if val[i0][0] != 0 else float('inf')) if q == 'q' else ts - val[i0][0]
                 g = call(getattr(rxn, 'get_delta_' + q), 'get_delta_%s(rev=%s, act=True)' % (q, rv), rev=F(rv), act=F(True))
                 if not self._close(g, w, tscale + val[i0][1], q):
                     raise Violation('activation', 'reaction %d: get_delta_%s(rev=%s, act=True) = %r; transition state - '
@@ -509,7 +513,8 @@ class WorldC08(World):
                     if not self._close(g2, w, tscale + val[i0][1], q):
                         raise Violation('activation', 'reaction %d: get_%s_act(rev=%s) = %r; transition state - initial '
                                         'state = %r' % (r, q, rv, g2, w))
-            fwd_delta = val['products'][0] / val['reactants'][0] if q == 'q' else val['products'][0] - val['reactants'][0]
+            fwd_delta = (val['products'][0] / val['reactants'][0] if val['reactants'][0] != 0 else float('inf')) if q == 'q' \
+                else val['products'][0] - val['reactants'][0]
             if q == 'q':
                 vals3 = [acts[False], acts[True], fwd_delta]
                 ok = not all(math.isfinite(v) and 1e-150 < abs(v) < 1e150 for v in vals3) or \
